@@ -60,7 +60,7 @@ func runEngineB(p *plan, tier string, base uint64, workers int, scale float64, r
 	sum := &bSummary{Fired: map[string]int{}, Probes: map[string]int{}, Workload: map[string]string{}}
 	perStage := map[string]int{}
 	var mu sync.Mutex
-	for _, st := range p.Stages {
+	for _, st := range stagesOf(p) {
 		n := st.Quick
 		if tier == "thorough" {
 			n = st.Thorough
